@@ -63,7 +63,7 @@ Alt(nt, la) ==
     [] nt = "<EnumBody>" -> IF la = "P:{" THEN << "P:{", "<Variants>", "P:}" >> ELSE <<>>
     [] nt = "<Variants>" -> IF la \in IdentTok \cup {"P:@"} THEN << "<Anns>", "<Ident>", "<VariantParams>", "<Variants>" >> ELSE <<>>
     [] nt = "<VariantParams>" -> IF la = "P:(" THEN << "<Params>" >> ELSE <<>>
-    [] nt = "<Type>" -> << "<TypeCore>", "<Nullable>" >>
+    [] nt = "<Type>" -> IF la \in IdentTok THEN << "<TypeCore>", "<Nullable>" >> ELSE << "<TypeCore>" >>     \* only a named type has a nullable form: `T?`, never `(...) -> ()?`, `union<..>?` or `literal<..>?`
     [] nt = "<Nullable>" -> IF la = "P:?" THEN << "P:?" >> ELSE <<>>
     [] nt = "<TypeCore>" ->
          CASE la = "KW:union" -> << "KW:union", "P:<", "<Type>", "<TypeTail>", "P:>" >>
